@@ -1356,8 +1356,16 @@ class Signature:
                     had_error = True
             elif self.evaluator is not None:
                 varmap = {
-                    param: composite.value
-                    for param, (_, composite) in bound_args.items()
+                    param: (
+                        # an omitted argument whose default is ... has the type
+                        # of the parameter's annotation
+                        self.parameters[param].annotation
+                        if position is DEFAULT
+                        and composite.value == KnownValue(...)
+                        and param in self.parameters
+                        else composite.value
+                    )
+                    for param, (position, composite) in bound_args.items()
                 }
                 positions = {
                     param: position for param, (position, _) in bound_args.items()
